@@ -245,7 +245,6 @@ def run_case(spec, ctx):
 def finish(out, text, spec):
     if out["violations"]:
         out["status"] = "violated"
-        out["violations"] = out["violations"][:6]
     for v in out["violations"]:
         F.classify(ID, v, text=text)
     out["model_text"] = text if out["violations"] else None
